@@ -854,7 +854,9 @@ def judge_beside(BaseHandler, SSF, spec, items, calls, sel, order):
     if r["exc"]:
         return "escaped", ("an exception leaves the middleware", r["exc"], "an answer")
     any_invalid = any(not c["valid"] for c in calls)
-    bare = G.run_request(BaseHandler(G.build(spec)), "/d.dods", join_query(items, sel)) if items else None
+    # the handler's own answer to the request without the calls (without ordinary items: to the selection alone, which
+    # is the inner request of the middleware)
+    bare = G.run_request(BaseHandler(G.build(spec)), "/d.dods", join_query(items, sel) if items else sel) if (items or sel) else None
     bare_ok = bare is None or (bare["status"] == 200 and not bare["body_exc"])
     if any_invalid or not bare_ok:
         if r["status"] == 200:
@@ -868,7 +870,7 @@ def judge_beside(BaseHandler, SSF, spec, items, calls, sel, order):
         decl, vals = decode_answer(r)
     except Exception as e:
         return "undecodable", ("the answer does not decode", "%s: %s" % (type(e).__name__, e), "a data response")
-    bdecl, bvals = decode_answer(bare) if bare is not None else ([], [])
+    bdecl, bvals = decode_answer(bare) if items else ([], [])
     names = top_names(bdecl)
     # a result that has the name of a constructor already in the answer is merged into it: outside the oracle
     for c in calls:
